@@ -325,3 +325,30 @@ contract(BASE + '.parse_authn_request_response',
                                'C02-present-response-signature-verified']})
 contract(ENT + '._parse_response', trusted=True, variants={('service', 'assertion_consumer_service'): ENT + '._parse_response[AuthnResponse]'},
          note='dispatch stub: the only call with service=assertion_consumer_service passes response_cls=AuthnResponse')
+
+
+# ================================================================================================ the IdP's public entry points (C10)
+for _fn, _cls, _svc in [('saml2_tophat.server:Server.parse_authn_request', 'AuthnRequest', 'single_sign_on_service'),
+                        (ENT + '.parse_logout_request', 'LogoutRequest', 'single_logout_service')]:
+    _cq = 'saml2_tophat.request:' + _cls
+    _RQ = 'as_type(result, "Inst(\'%s\')")' % _cq
+    contract(_fn, types={'enc_request': 'Any', 'xmlstr': 'Any', 'binding': 'Opt(Str)'}, returns="Opt(Inst('%s'))" % _cq, merge_exits='raises',
+             requires=["EP_TABLE_OK(self.config, self.entity_type, %r)" % _svc, "EP_TABLE_OK(self.config, 'aa', %r)" % _svc,
+                       "EP_TABLE_OK(self.config, 'aq', %r)" % _svc, "EP_TABLE_OK(self.config, 'pdp', %r)" % _svc,
+                       "typed(cfg_attr(self.config, 'want_authn_requests_signed', 'idp'), 'Opt(Bool)')",
+                       "typed(cfg_attr(self.config, 'want_authn_requests_only_with_valid_cert', 'idp'), 'Opt(Bool)')"],
+             ensures=[('C10-parsed-and-valid', 'implies(result is not None, %s.message is not None and schema_valid(%s.message))' % (_RQ, _RQ)),
+                      ('C10-unsigned-refused-when-signatures-wanted',
+                       "implies(result is not None and (truthy(cfg_attr(self.config, 'want_authn_requests_signed', 'idp')) or "
+                       "truthy(cfg_attr(self.config, 'want_authn_requests_only_with_valid_cert', 'idp'))), truthy(%s.message.signature))" % _RQ),
+                      ('C10-present-signature-verified',
+                       'implies(result is not None and truthy(%s.message.signature) and truthy(%s.message.id), '
+                       'SIG_OK(self.sec, %s.xmlstr, %s.message, cname(%s.message), None))' % (_RQ, _RQ, _RQ, _RQ, _RQ)),
+                      ('C10-issue-instant', 'implies(result is not None, epoch(%s.message.issue_instant) - NOW <= 86400 + %s.timeslack and '
+                                            'NOW - epoch(%s.message.issue_instant) <= 86400 + %s.timeslack)' % (_RQ, _RQ, _RQ, _RQ)),
+                      ('C06-version', "implies(result is not None, %s.message.version == '2.0')" % _RQ)],
+             raises={'Exception': 'True'},
+             modifies=['*.xmlstr', '*.message', '*.sec', '*.receiver_addrs', '*.timeslack', '*.name_id', '*.not_on_or_after',
+                       '*.attribute_converters', '*.binding', '*.relay_state', '*.signature_check'],
+             clauses_from={'C10': ['C10-parsed-and-valid', 'C10-unsigned-refused-when-signatures-wanted', 'C10-present-signature-verified',
+                                   'C10-issue-instant'], 'C06': ['C06-version']})
